@@ -126,6 +126,32 @@ CLAIMS = {
 }
 
 
+def tie_sentence(pid):
+    """what the source-generated tie adds for this property (read from props/Cxx.py and the Tie files)"""
+    import importlib
+    import re
+    import sys
+    sys.path.insert(0, os.path.join(V, "harness"))
+    try:
+        mod = importlib.import_module("props." + pid)
+    except Exception:
+        return ""
+    mods = list(getattr(mod, "TIE_MODULES", []))
+    if not mods:
+        return ""
+    n = 0
+    for m in mods:
+        path = os.path.join(V, "lean", m.replace(".", "/") + ".lean")
+        if os.path.exists(path):
+            n += len(re.findall(r"^theorem\s+\S+_tie\b", open(path).read(), flags=re.M))
+    extra = {"C11": " The 28 Doc 9871 row theorems are also stated directly for the generated definitions (Tie/C11Gen.lean).",
+             "C12": " The exact characterisations is40/44/45/50/53_iff are also stated directly for the generated definitions (Tie/C12Gen.lean)."}
+    return (" Source-generated tie: %d theorems (%s) prove that the Lean definitions harness/py2lean.py regenerates from the current "
+            "text of the anchored functions on every run equal the hand model on every well-formed frame, so the theorems above are "
+            "about what the code says now; the generated definitions are also run against the real functions (gendriver) on this "
+            "property's case stream.%s" % (n, ", ".join(m.split(".")[-1] for m in mods), extra.get(pid, "")))
+
+
 def main():
     props = [json.loads(l) for l in open(os.path.join(V, "properties.jsonl"))]
     checks = []
@@ -143,9 +169,9 @@ def main():
             evidence_file="evidence/%s.json" % pid,
             replay_cmd_template="./check --replay {path}",
             engine="lean-proof+correspondence",
-            level_claimed=dict(category="proof", text=c["text"], design_ref=c["design"]),
+            level_claimed=dict(category="proof", text=c["text"] + tie_sentence(pid), design_ref=c["design"]),
             level_note=LEVEL_NOTE + c["note"],
-            technique=c["technique"],
+            technique=c["technique"] + (" + source-generated Lean definitions tied to the model by theorem" if tie_sentence(pid) else ""),
         ))
     m = dict(
         version=1,
@@ -155,7 +181,7 @@ def main():
                    source_commits=[], add_only=True),
         engines=[dict(name="lean-proof+correspondence", path="lean/ harness/",
                       serves_properties=[c["property_id"] for c in checks],
-                      kind_free_text="Lean 4 model + theorems (lean/PyModeS), data-table translator, line-protocol correspondence against the compiled Lean driver")],
+                      kind_free_text="Lean 4 model + theorems (lean/PyModeS), data-table translator and source translator (py2lean: Lean definitions regenerated from the Python source, tied to the model by theorems in lean/PyModeS/Tie), line-protocol correspondence against the compiled Lean drivers")],
         checks=checks,
         not_applicable=na,
         notes="See DESIGN.md. known_findings.json lists recorded defects; replays/ is written only on violation.",
